@@ -310,11 +310,11 @@ pub fn c09_paragraphs(c: &TextCase) -> Outcome {
     Ok(nontrivial)
 }
 
-/// C07 (text level): for the ASCII separator without splitter and without force-breaking, the fragments are
-/// the space-delimited words, so the greedy rule of the statement determines the output completely.
+/// C07 (text level): for the ASCII separator, the hyphen or no splitter and no force-breaking, the fragments are the
+/// space-delimited words cut at the splitter's split points, so the greedy rule of the statement determines the output.
 pub fn c07_text(c: &TextCase) -> Outcome {
     let o = &c.opts;
-    if o.algo != Algo::FirstFit || o.spl != Spl::None || o.sep != Sep::Ascii || o.break_words || !well_formed(&c.text) {
+    if o.algo != Algo::FirstFit || o.spl == Spl::Every2 || o.sep != Sep::Ascii || o.break_words || !well_formed(&c.text) {
         return Ok(false);
     }
     let lines = wrap(&c.text, o.options());
@@ -324,26 +324,38 @@ pub fn c07_text(c: &TextCase) -> Outcome {
         bounds.extend(ascii_boundaries(para));
         bounds.push(para.len());
         bounds.dedup();
-        let words: Vec<&str> = bounds.windows(2).map(|w| &para[w[0]..w[1]]).collect();
+        // fragments: (start, end of word proper, end incl. whitespace)
+        let mut frags: Vec<(usize, usize, usize)> = Vec::new();
+        for w in bounds.windows(2) {
+            let chunk = &para[w[0]..w[1]];
+            let word = chunk.trim_end_matches(' ');
+            let mut prev = 0;
+            for p in split_points_oracle(o.spl, word) {
+                frags.push((w[0] + prev, w[0] + p, w[0] + p));
+                prev = p;
+            }
+            frags.push((w[0] + prev, w[0] + word.len(), w[1]));
+        }
         // greedy: start a new line exactly when the line is non-empty and acc + width + penalty > line width
+        // (the hyphen splitter's pieces end in '-', so their penalty is empty)
         let mut start = 0usize;
         let mut acc = 0usize;
         let mut runs: Vec<(usize, usize)> = Vec::new();
-        for (i, w) in words.iter().enumerate() {
+        for (i, f) in frags.iter().enumerate() {
             let k = expect.len() + runs.len();
             let lw = o.width.saturating_sub(dw(o.indent_of(k)));
-            let ww = dw(w.trim_end_matches(' '));
+            let ww = dw(&para[f.0..f.1]);
             if i > start && acc + ww > lw {
                 runs.push((start, i));
                 start = i;
                 acc = 0;
             }
-            acc += ww + (w.len() - w.trim_end_matches(' ').len());
+            acc += ww + (f.2 - f.1);
         }
-        runs.push((start, words.len()));
+        runs.push((start, frags.len()));
         for (a, b) in runs {
             let k = expect.len();
-            let body = if a == b { "" } else { para[bounds[a]..bounds[b]].trim_end_matches(' ') };
+            let body = if a == b { "" } else { &para[frags[a].0..frags[b - 1].1] };
             expect.push(format!("{}{}", o.indent_of(k), body));
         }
     }
